@@ -10,6 +10,7 @@ import (
 	"fmt"
 	"math/rand"
 	"net/url"
+	"sort"
 	"strings"
 
 	mnsx "verif/internal/model/nsx"
@@ -60,6 +61,8 @@ func genPair(typ string, seed int64) *genCase {
 		return genNSX(seed)
 	case "panos":
 		return genPANOS(seed)
+	case "asa", "ios":
+		return genCisco(typ, seed)
 	}
 	return nil
 }
@@ -88,6 +91,8 @@ func runConv(env *run.Env, g *genCase, wantPrefixes bool) *convOutcome {
 		convNSX(env, g, o, changed, wantPrefixes)
 	case "panos":
 		convPANOS(env, g, o, changed, wantPrefixes)
+	case "asa", "ios":
+		convCisco(env, g, o, changed, wantPrefixes)
 	}
 	return o
 }
@@ -192,7 +197,7 @@ func convNSX(env *run.Env, g *genCase, o *convOutcome, changed, wantPrefixes boo
 	pc.Device = store.DeviceConfig().JSON()
 	r2 := runPair(env, pc, false)
 	if r2.Exit != 0 || r2.Stdout != "" || !strings.Contains(r2.Stderr, "comp: device unchanged") {
-		o.Conv = &clause{"second-compare-not-clean", firstLines(r2.Stdout+r2.Stderr, 4)}
+		o.Conv = &clause{"second-compare-not-clean:" + scriptShape(r2.Stdout), firstLines(r2.Stdout+r2.Stderr, 4)}
 	}
 }
 
@@ -294,6 +299,36 @@ func convPANOS(env *run.Env, g *genCase, o *convOutcome, changed, wantPrefixes b
 	pc.Device = dev.ConfigXML()
 	r2 := runPair(env, pc, false)
 	if r2.Exit != 0 || r2.Stdout != "" || !strings.Contains(r2.Stderr, "comp: device unchanged") {
-		o.Conv = &clause{"second-compare-not-clean", firstLines(r2.Stdout+r2.Stderr, 4)}
+		o.Conv = &clause{"second-compare-not-clean:" + scriptShape(r2.Stdout), firstLines(r2.Stdout+r2.Stderr, 4)}
 	}
+}
+
+// scriptShape summarises a script by the sorted set of its command heads.
+func scriptShape(script string) string {
+	set := map[string]bool{}
+	for _, l := range strings.Split(script, "\n") {
+		for _, c := range strings.Split(l, "\\N ") {
+			if strings.TrimSpace(c) == "" {
+				continue
+			}
+			h := cmdHead(c)
+			w := strings.Fields(c)
+			if len(w) >= 2 && (w[0] == "no" || w[0] == "clear") && !strings.Contains(h, ":") {
+				h = w[0] + "_" + w[1]
+				if w[0] == "clear" && len(w) >= 3 {
+					h = "clear_" + w[2]
+				}
+			}
+			set[h] = true
+		}
+	}
+	var l []string
+	for h := range set {
+		l = append(l, h)
+	}
+	sort.Strings(l)
+	if len(l) > 4 {
+		l = append(l[:4], "...")
+	}
+	return strings.Join(l, "+")
 }
